@@ -45,6 +45,30 @@ def lib_script(sc, fault=None):
     k = sc["kind"]
     if k == "write":
         return "\n".join(L) + "\n" + gen.writer_script(sc["cfg"], seg=sc["seg"]) + "iocounts\n"
+    if k == "write-retry":
+        # a caller that does not give up at the first error: after every call it clears the error (if the library lets it) and calls
+        # again; whatever that achieves, a close that reports success must have produced the complete file
+        ws = gen.writer_script(sc["cfg"], seg=sc["seg"]).split("\n")
+        out = []
+        for ln in ws:
+            if ln.startswith("writeseq "):
+                pos = 0
+                n = len(sc["_D"])
+                toks = [t for t in sc["seg"]]
+                ti = 0
+                while pos < n:
+                    t = toks[ti % len(toks)]
+                    ti += 1
+                    if t == "e":
+                        out += ["end_chunk 0", "clear_error 0", "end_chunk 0", "clear_error 0"]
+                        continue
+                    ln_ = min(int(t), n - pos)
+                    out += ["write 0 f:in.dat:%d:%d" % (pos, ln_), "clear_error 0"]
+                    pos += ln_
+                out += ["end_chunk 0", "clear_error 0", "end_chunk 0", "clear_error 0"]
+            else:
+                out.append(ln)
+        return "\n".join(L) + "\n" + "\n".join(out) + "iocounts\n"
     if k == "read":
         return "\n".join(L) + "\n" + gen.reader_script("f.zck", sizes=sc["sizes"]) + "iocounts\n"
     if k in ("vc", "vd", "fv"):
@@ -74,7 +98,7 @@ def judge_lib(sc, r, cdir, fault):
     """(sig, detail) or None.  r: run result with the fault injected."""
     k = sc["kind"]
     tag = "%s:%s.%s:%s%s" % (k, fault[0], fault[1], KN[fault[3]], "+" + KN[fault[6][1]] if len(fault) > 6 and fault[6] else "")
-    if k == "write":
+    if k in ("write", "write-retry"):
         cl = r.first(op="close")
         if cl and cl["rc"] == 1:
             try:
@@ -280,7 +304,7 @@ def worker(case):
                 crash = core.crash_signatures(r, where="tool:" + sc["kind"])
             else:
                 files = {}
-                if sc["kind"] == "write":
+                if sc["kind"] in ("write", "write-retry"):
                     files["in.dat"] = sc["_D"]
                     if sc.get("_dict"):
                         files["dict.bin"] = sc["_dict"]
@@ -358,6 +382,8 @@ class C12(core.Check):
         scs.append({"name": "write-zstd-manual", "kind": "write", "cfg": {"comp": 2, "manual": True, "level": 1}, "seg": [4000, "e", 3000, "e"], "D": core.b64(Dsmall)})
         scs.append({"name": "write-zstd-dict", "kind": "write", "cfg": {"comp": 2, "dict": "dict.bin", "level": 1, "manual": True}, "seg": [5000, "e"], "D": core.b64(Dsmall),
                     "dict": core.b64(dict_b)})
+        scs.append({"name": "write-retry-zstd", "kind": "write-retry", "cfg": {"comp": 2, "manual": True, "level": 1}, "seg": [2500, "e", 3000, "e"], "D": core.b64(Dsmall)})
+        scs.append({"name": "write-retry-none", "kind": "write-retry", "cfg": {"comp": 0, "manual": True}, "seg": [4000, "e"], "D": core.b64(Dsmall)})
         if not q:
             scs.append({"name": "write-zstd-auto-big", "kind": "write", "cfg": {"comp": 2, "level": 1}, "seg": [65536], "D": core.b64(D * 4)})
             scs.append({"name": "write-none-uncomp", "kind": "write", "cfg": {"comp": 0, "uncomp": True, "chunk_hash": 1}, "seg": [1000, "e"], "D": core.b64(Dsmall)})
@@ -483,7 +509,7 @@ class C12(core.Check):
                         counts[key] = max(counts.get(key, 0), e["n"])
             return counts, pcounts, bypass
         files = {}
-        if sc["kind"] == "write":
+        if sc["kind"] in ("write", "write-retry"):
             files["in.dat"] = sc["_D"]
             if sc.get("_dict"):
                 files["dict.bin"] = sc["_dict"]
